@@ -1194,14 +1194,14 @@ def gen_h(d, opts=None, name=None, guard=True):
     items = []
     nitems = d.int(1, 4)
     for _ in range(nitems):
-        items.append(d.weighted([(4, "tstruct"), (2, "tenum"), (2, "struct"), (2, "alias"), (4, "protos"), (1, "tunion"), (1, "enum")]))
+        items.append(d.weighted([(4, "tstruct"), (2, "tenum"), (2, "struct"), (2, "alias"), (4, "protos"), (1, "tunion"), (1, "enum"), (1, "union")]))
     if "protos" not in items and d.bool(0.7):
         items.append("protos")
-    order = {"alias": 0, "tenum": 1, "enum": 1, "struct": 2, "tstruct": 2, "tunion": 2, "protos": 3}
+    order = {"alias": 0, "tenum": 1, "enum": 1, "struct": 2, "tstruct": 2, "tunion": 2, "union": 2, "protos": 3}
     items.sort(key=lambda k: order[k])
     built = []
     for k in items:
-        if k in ("tstruct", "tunion", "struct"):
+        if k in ("tstruct", "tunion", "struct", "union"):
             built.append((k, _struct_block(g, k)))
         elif k in ("tenum", "enum"):
             built.append((k, _enum_block(g, k)))
@@ -1275,12 +1275,12 @@ def _members(g, n):
 
 def _struct_block(g, k):
     d = g.d
-    kw = "union" if k == "tunion" else "struct"
+    kw = "union" if k in ("tunion", "union") else "struct"
     tag = g.fresh("tag_u" if kw == "union" else "tag_s", prefix="u_" if kw == "union" else "s_", lo=2, hi=8)
     if kw == "struct":
         g.stags.append(tag)
     tname = None
-    if k != "struct":
+    if k not in ("struct", "union"):
         tname = g.fresh("tdef", prefix="t_", lo=2, hi=8)
         g.tdefs.append(tname)
     mem = _members(g, d.int(1, 4))
